@@ -103,6 +103,16 @@ KRich(s, a, i, accs) ==
            nxt == AggStep(a, cur, s[i][2])
        IN <<<<k, nxt>>>> \o KRich(s, a, i + 1, [x \in (DOMAIN accs) \cup {k} |-> IF x = k THEN nxt ELSE accs[x]])
 
+(* distinct elements, first occurrence order *)
+RECURSIVE Dedup(_, _, _)
+Dedup(s, i, acc) ==
+  IF i > Len(s) THEN acc
+  ELSE IF \E j \in 1..Len(acc) : acc[j] = s[i] THEN Dedup(s, i + 1, acc) ELSE Dedup(s, i + 1, Append(acc, s[i]))
+(* running aggregate of a sequential stream (rich_map) *)
+RECURSIVE Running(_, _, _, _)
+Running(s, a, i, acc) ==
+  IF i > Len(s) THEN <<>> ELSE <<AggStep(a, acc, s[i])>> \o Running(s, a, i + 1, AggStep(a, acc, s[i]))
+
 GlobalFold(s, a) == IF s = <<>> THEN <<>>
                     ELSE <<FoldL(LAMBDA acc, v : AggStep(a, acc, v), AggInit(a), s, 1)>>
 GlobalReduce(s, a) == IF s = <<>> THEN <<>> ELSE <<ReduceSeq(s, a)>>
@@ -196,6 +206,9 @@ EvalNode(n, env, st) ==
                           [] n.kind = "script"    -> ScriptData(n.scripts))
     [] n.op = "map"      -> Put(env, n.id, MapSeq(LAMBDA v : FMap(n.f, v), in(1)))
     [] n.op = "map_st"   -> Put(env, n.id, MapSeq(LAMBDA v : FMapSt(n.f, v, st), in(1)))
+    [] n.op = "map_memo" -> Put(env, n.id, MapSeq(LAMBDA v : FMap(n.f, v), in(1)))
+    [] n.op = "unique"   -> Put(env, n.id, Dedup(in(1), 1, <<>>))
+    [] n.op = "rich_map" -> Put(env, n.id, Running(in(1), n.agg, 1, AggInit(n.agg)))
     [] n.op = "filter"   -> Put(env, n.id, SelectSeq(in(1), LAMBDA v : FFilter(n.p, v)))
     [] n.op = "flat_map" -> Put(env, n.id, FlatMapSeq(LAMBDA v : FFlat(n.g, v), in(1)))
     [] n.op \in {"shuffle", "replicate", "reorder"} -> Put(env, n.id, in(1))
